@@ -1,5 +1,6 @@
 import HL.Driver.Util
 import HL.Model.MapOrder
+import HL.Model.Completion
 open Lean HL.MapOrder
 
 /-
@@ -74,9 +75,12 @@ def isTruncRanking (items : List Scored) (max : Nat) (out : List String) : Bool 
      | some last => rest.all (fun it => rankLe last it)
      | none => rest.isEmpty)
 
+/-- `getAccountsForPrefix`: the accounts that start with the typed parent in any letter case
+    (`HL.Completion.accountsForPrefix`), all of them when there is none. -/
 def candidatesFor (all : List String) (pfx : String) : List String :=
   if pfx == "" then all else
-  let byPrefix := all.filter (fun a => pfx.toList.isPrefixOf a.toList)
+  let lowerPfx := pfx.toList.map HL.Completion.goLower
+  let byPrefix := all.filter (fun a => lowerPfx.isPrefixOf (a.toList.map HL.Completion.goLower))
   if byPrefix.isEmpty then all else byPrefix
 
 def verdict (kind : String) (i : Json) : Verdict :=
